@@ -28,6 +28,28 @@ theorem sumVars_congr_outside (card : Name → Nat) : ∀ (xs : List Name) (f g 
     simp only [List.mem_cons, not_or] at hy
     rw [hτ y hy.2, Val.set_other _ _ hy.1]
 
+/-- congruence of sums on the valuations the sum actually visits: the summed variables take values in range, the others
+are untouched -/
+theorem sumVars_congr_reach (card : Name → Nat) : ∀ (xs : List Name) (f g : Val → Rat) (σ : Val),
+    (∀ τ, (∀ y, y ∉ xs → τ y = σ y) → (∀ y ∈ xs, τ y < card y) → f τ = g τ) → sumVars card xs f σ = sumVars card xs g σ
+  | [], f, g, σ, h => h σ (fun _ _ => rfl) (fun _ hy => by cases hy)
+  | x :: xs, f, g, σ, h => by
+    simp only [sumVars]
+    apply sumVar_congr
+    intro k hk
+    apply sumVars_congr_reach card xs f g
+    intro τ hτ hr
+    apply h
+    · intro y hy
+      simp only [List.mem_cons, not_or] at hy
+      rw [hτ y hy.2, Val.set_other _ _ hy.1]
+    · intro y hy
+      rcases List.mem_cons.mp hy with rfl | hy
+      · by_cases hyx : y ∈ xs
+        · exact hr y hyx
+        · rw [hτ y hyx, Val.set_same]; exact hk
+      · exact hr y hy
+
 /-- names of the noise variables `o, o+1, …, o+n-1` -/
 def noiseNames (o n : Nat) : List Name := (List.range n).map (o + ·)
 
@@ -64,10 +86,10 @@ theorem pointOf_succ (o n : Nat) (τ : Val) : pointOf o (n + 1) τ = τ o :: poi
 
 /-- weight of the noise point read off a valuation -/
 def weightOf (ns : List (List Rat)) (o : Nat) (τ : Val) : Rat :=
-  ((List.range ns.length).map fun j => (ns.getD j []).getD (τ (o + j)) 0).prod
+  ((List.range ns.length).map fun j => (ns.getD j []).getD (τ (o + j)) 1).prod
 
 theorem weightOf_cons (pmf : List Rat) (rest : List (List Rat)) (o : Nat) (τ : Val) :
-    weightOf (pmf :: rest) o τ = pmf.getD (τ o) 0 * weightOf rest (o + 1) τ := by
+    weightOf (pmf :: rest) o τ = pmf.getD (τ o) 1 * weightOf rest (o + 1) τ := by
   unfold weightOf
   rw [List.length_cons, List.range_succ_eq_map, List.map_cons, List.prod_cons, List.map_map]
   simp only [Nat.add_zero, List.getD_cons_zero]
@@ -79,8 +101,8 @@ theorem weightOf_cons (pmf : List Rat) (rest : List (List Rat)) (o : Nat) (τ : 
   show (o + (j + 1) : Nat) = o + 1 + j
   omega
 
-theorem sum_zipIdx (pmf : List Rat) (A : Nat → Rat) (n : Nat) :
-    ((pmf.zipIdx n).map fun p => p.1 * A p.2).sum = ∑ k ∈ range pmf.length, pmf.getD k 0 * A (n + k) := by
+theorem sum_zipIdx (d : Rat) (pmf : List Rat) (A : Nat → Rat) (n : Nat) :
+    ((pmf.zipIdx n).map fun p => p.1 * A p.2).sum = ∑ k ∈ range pmf.length, pmf.getD k d * A (n + k) := by
   induction pmf generalizing n with
   | nil => simp
   | cons a l ih =>
@@ -122,12 +144,12 @@ theorem space_sum (cardN : Name → Nat) : ∀ (ns : List (List Rat)) (o : Nat) 
       simp only [Function.comp_apply]
       ring
     rw [List.map_congr_left (fun p _ => hinner p)]
-    rw [sum_zipIdx pmf (fun x => ((space rest).map fun q => q.2 * F (x :: q.1)).sum) 0]
+    rw [sum_zipIdx 1 pmf (fun x => ((space rest).map fun q => q.2 * F (x :: q.1)).sum) 0]
     apply Finset.sum_congr rfl
     intro k hk
     simp only [Nat.zero_add]
     rw [space_sum cardN rest (o + 1) (fun pt => F (k :: pt)) (σ.set o k) hcr]
-    rw [← sumVars_mul_left cardN _ (fun _ => pmf.getD k 0) _ _ (fun _ _ _ _ => rfl)]
+    rw [← sumVars_mul_left cardN _ (fun _ => pmf.getD k 1) _ _ (fun _ _ _ _ => rfl)]
     apply sumVars_congr_outside
     intro τ hτ
     have hτo : τ o = k := by
